@@ -88,17 +88,19 @@ func fromReal(rc *files.Content) wire.Content {
 	return c
 }
 
-// planErrClass maps an error of files.PrepareForPackager to the model's closed enum.
+// planErrClass maps an error of files.PrepareForPackager to the model's closed enum.  Typed errors are recognised by
+// type; the remaining classes only by the wording of today's messages, and an error whose wording is not recognised
+// is "other": it still counts as an error wherever the model or the spec expects one (see samePlan).
 func planErrClass(err error) string {
 	switch {
 	case err == nil:
 		return ""
 	case errors.Is(err, files.ErrContentCollision):
 		return "collision"
+	case planErrChainHas(err, "ErrGlobNoMatch") || strings.Contains(err.Error(), "no matching files"):
+		return "glob-no-match"
 	case strings.Contains(err.Error(), "invalid content type"):
 		return "invalid-type"
-	case strings.Contains(err.Error(), "no matching files"):
-		return "glob-no-match"
 	case strings.Contains(err.Error(), "add tree:"):
 		return "walk-err"
 	case errors.Is(err, os.ErrNotExist):
@@ -108,7 +110,34 @@ func planErrClass(err error) string {
 	case strings.Contains(err.Error(), "Rel:"):
 		return "rel-err"
 	}
-	return "other:" + err.Error()
+	return "other"
+}
+
+func planErrChainHas(err error, typeName string) bool {
+	for e := err; e != nil; e = errors.Unwrap(e) {
+		if strings.HasSuffix(fmt.Sprintf("%T", e), typeName) {
+			return true
+		}
+	}
+	return false
+}
+
+// samePlan compares a model plan with an implementation plan as rendered by showPlan.  Error classes that only the
+// wording of a message tells apart are not held against the implementation: a missing source is one class whether
+// it is met by the tree walk or by the glob, and an error the harness cannot name agrees with any error.
+func samePlan(model, impl string) bool {
+	canon := func(s string) string {
+		switch s {
+		case "error:walk-err", "error:not-exist":
+			return "error:source-missing"
+		}
+		return s
+	}
+	m, i := canon(model), canon(impl)
+	if m == i {
+		return true
+	}
+	return i == "error:other" && strings.HasPrefix(m, "error:") && m != "error:collision"
 }
 
 // realPlan runs the real files.PrepareForPackager on fresh copies.
